@@ -153,7 +153,6 @@ func (m *mantarayManifest) IterateAddresses(ctx context.Context, fn boson.Addres
 		return ErrMissingReference
 	}
 
-	emptyAddr := boson.NewAddress([]byte{31: 0})
 	walker := func(path []byte, node *mantaray.Node, err error) error {
 		if err != nil {
 			return err
@@ -171,14 +170,16 @@ func (m *mantarayManifest) IterateAddresses(ctx context.Context, fn boson.Addres
 
 			if node.IsValueType() && len(node.Entry()) > 0 {
 				entry := boson.NewAddress(node.Entry())
-				// The following comparison to the emptyAddr is
-				// a dirty hack which prevents the walker to
-				// fail when it encounters an empty address
-				// (e.g.: during the unpin traversal operation
-				// for manifest). This workaround should be
+				// An entry without a reference (e.g. the root
+				// metadata entry) is serialised as zero bytes
+				// of the manifest's reference size: 32 bytes,
+				// or 64 bytes in an encrypted manifest. It
+				// refers to no chunk, so the walker must skip
+				// it (otherwise e.g. the unpin traversal of
+				// a manifest fails). This workaround should be
 				// removed after the manifest serialization bug
 				// is fixed.
-				if entry.Equal(emptyAddr) {
+				if isZeroReference(node.Entry()) {
 					return nil
 				}
 				if err = fn(entry); err != nil {
@@ -196,6 +197,16 @@ func (m *mantarayManifest) IterateAddresses(ctx context.Context, fn boson.Addres
 	}
 
 	return nil
+}
+
+// isZeroReference tells whether the serialised entry consists of zero bytes only.
+func isZeroReference(entry []byte) bool {
+	for _, b := range entry {
+		if b != 0 {
+			return false
+		}
+	}
+	return true
 }
 
 type mantarayLoadSaver struct {
